@@ -82,6 +82,9 @@ def grid(tier):
                                   ({"mnemonics_header": True, "wrap": True}, {"wrap": False}))):
             yield {"input": "gen", "seed": 3000 + 10 * fi + j, "cfg1": cfgs[0], "cfg2": cfgs[1], "fmt": fi, "gen_version": 2 if j % 2 else 1.2, "src_case": "upper"}
             yield {"input": "tests/examples/sample.las", "cfg1": cfgs[0], "cfg2": cfgs[1], "fmt": fi}
+    for k2 in range(3):      # an input without data rows, header styles
+        yield {"input": "gen", "seed": 7100 + k2, "cfg1": {"mnemonics_header": True}, "cfg2": {}, "fmt": 0, "gen_version": 2, "src_case": "upper", "no_rows": True}
+        yield {"input": "gen", "seed": 7110 + k2, "cfg1": {"wrap": True, "mnemonics_header": True}, "cfg2": {"wrap": False}, "fmt": k2, "gen_version": 1.2, "src_case": "upper", "no_rows": True}
     for k2 in range(3):      # witness of the known finding: a date-like text curve, wrapped vs unwrapped
         yield {"input": "gen", "seed": 7000 + k2, "cfg1": {"version": 2, "wrap": True}, "cfg2": {"version": 2, "wrap": False}, "fmt": 0, "gen_version": 2, "src_case": "upper", "date_curve": True, "wide": 7}
     # wide tables: data rows of every length relative to the 79 / 255 / 256-character marks, with and without wrapping
@@ -147,6 +150,9 @@ def run_case(case, ctx):
                 nrows = len(spec["curves"][0][4])
                 spec["curves"] = spec["curves"][:1] + [["W%d" % j, "u", "", "wide %d" % j, [round(100.0 * j + i + 0.25, 2) for i in range(nrows)]] for j in range(case["wide"])]
                 ctx.count("inputs_with_wide_tables")
+            if case.get("no_rows"):
+                for cv in spec["curves"]:
+                    cv[4] = []
             if case.get("date_curve"):
                 nrows = len(spec["curves"][0][4])
                 spec["curves"].append(["DATE", "", "", "text curve of dates", ["2018-05-%02d" % (i + 1) for i in range(nrows)]])
@@ -169,6 +175,7 @@ def run_case(case, ctx):
         kind = "corpus"
     outs = []
     x = None
+    write_errors = []
     for cfg in (cfg1, cfg2):
         try:
             x = fresh()
@@ -179,14 +186,23 @@ def run_case(case, ctx):
         try:
             x.write(b, **_kw(cfg, f, len(x.curves)))
         except Exception as e:
-            ctx.count("skipped_write_raised")
-            ctx.seen("write_failures", "%s: %s" % (case["input"], type(e).__name__))
-            return
+            write_errors.append((cfg, e))
+            continue
         t = b.getvalue()
         try:
             outs.append((t, lasio.read(t, mnemonic_case=mc), None))
         except Exception as e:
             outs.append((t, None, e))
+    if write_errors:
+        ctx.count("skipped_write_raised")
+        ctx.seen("write_failures", "%s: %s" % (case["input"], type(write_errors[0][1]).__name__))
+        # an input that can be written one way must be writable the other way too (a missing VERS / WRAP / STRT item raises
+        # KeyError / AttributeError by design when the option that would replace it is left out: not judged)
+        if len(write_errors) == 1 and not isinstance(write_errors[0][1], (KeyError, AttributeError)):
+            ctx.violation("one-config-write-raises:%s" % type(write_errors[0][1]).__name__,
+                          "write(%r) raised %r, the other configuration wrote the same input" % (write_errors[0][0], write_errors[0][1]),
+                          {"input": case["input"], "seed": case.get("seed"), "cfg1": cfg1, "cfg2": cfg2})
+        return
     (t1, r1, e1), (t2, r2, e2) = outs
     detail = {"input": case["input"], "seed": case.get("seed"), "cfg1": cfg1, "cfg2": cfg2, "fmt": f, "mnemonic_case": mc}
     ctx.count("pairs_source_case_" + mc)
